@@ -891,7 +891,8 @@ theorem dataInv_slots {s s' : State} (h : DataInv s)
         ∃ sl, slotAt s.vols v i = some sl ∧ (sl'.sec = none ∨ (sl'.sec = sl.sec ∧ sl'.content = sl.content)) ∧
           (sl'.durable = false → sl.durable = false))
     (hloc : ∀ r, located s'.vols r = true → located s.vols r = true)
-    (hkeep : ∀ r, located s.vols r = true → located s'.vols r = true ∨ (r ∈ s'.lostNow ∧ r ∉ s'.fresh))
+    (hkeep : ∀ r, located s.vols r = true → located s'.vols r = true ∨ (r ∈ s'.lostNow ∧ r ∉ s'.fresh) ∨
+        (referenced s r = false ∧ r ∉ s.fresh))
     (hp : s'.pending = s.pending) (hu : s'.unsynced = s.unsynced) (hl : ∀ r ∈ s.lostNow, r ∈ s'.lostNow)
     (hr : ∀ r, referenced s' r = referenced s r)
     (hf : ∀ r ∈ s'.fresh, r ∈ s.fresh) (hrec : ∀ r ∈ s.recent, r ∈ s'.recent)
@@ -926,14 +927,16 @@ theorem dataInv_slots {s s' : State} (h : DataInv s)
     rw [hr] at hr'
     rcases h.refSafe r hr' with h1 | ⟨h1, h2, h3⟩
     · exact Or.inl (hl r h1)
-    · rcases hkeep r h1 with h4 | h4
+    · rcases hkeep r h1 with h4 | h4 | h4
       · exact Or.inr ⟨h4, hu ▸ h2, fun e => h3 (hip r e)⟩
       · exact Or.inl h4.1
+      · rw [h4.1] at hr'; cases hr'
   · intro r hr'
     obtain ⟨h1, h3⟩ := h.freshSafe r (hf r hr')
-    rcases hkeep r h1 with h4 | h4
+    rcases hkeep r h1 with h4 | h4 | h4
     · exact ⟨h4, fun e => h3 (hip r e)⟩
     · exact absurd hr' h4.2
+    · exact absurd (hf r hr') h4.2
   · intro v i sl' h1 hd
     rcases hslot v i sl' h1 with ⟨_, h3⟩ | ⟨sl, h3, _, e3⟩
     · rw [h3] at hd; cases hd
@@ -1078,7 +1081,7 @@ theorem removeSector_data {s : State} (hm : MetaOK s) (h : DataInv s) (r : Secto
       exact ((hloc' r').mp hr').2
     · intro r' hr'
       by_cases e : r' = r
-      · right; subst e; simp
+      · right; left; subst e; simp
       · left; rw [located_of_skel hsk]; exact (hloc' r').mpr ⟨e, hr'⟩
     · rfl
     · rfl
@@ -1150,7 +1153,7 @@ theorem removeVolume_data {s : State} (hm : MetaOK s) (h : DataInv s) (v : Nat) 
   · intro r hr
     obtain ⟨v', i', hh⟩ := holdsAt_of_located hm.core.ids hr
     by_cases e : v' = v
-    · right
+    · right; left
       subst e
       have hmem := holdsAt_occList hh hv
       refine ⟨List.mem_append_left _ hmem, ?_⟩
@@ -1833,6 +1836,7 @@ def ShapeOK (f : Facts) : Op → Prop
   | .vmResizeStale _ _ _ _ => f.resizeStatLocked = true
   | .syncFsyncFail _ => f.syncSerial = true
   | .syncPartial _ _ => f.syncKeepsRest = true
+  | .removeRows _ force _ => RemoveShapeOK f force
   | _ => True
 
 theorem syncBegin_data {s : State} (h : DataInv s) : DataInv (syncBegin s).1 := by
@@ -1988,12 +1992,242 @@ theorem vmResizeStale_fixed {f : Facts} (hf : f.resizeStatLocked = true) (s : St
   simp only [vmResizeStale, vmResize, hf, Bool.true_or, if_true]
   split <;> rfl
 
+/-! ## the batched loops, one transaction at a time -/
+
+theorem removeRows_data (f : Facts) {s : State} (hm : MetaOK s) (h : DataInv s) (v : Nat) (force : Bool) (gone : List Nat)
+    (hs : force = true → ∀ p ∈ s.pending, p.v ≠ v) : DataInv (removeRows f s v force gone).1 := by
+  simp only [removeRows]
+  split
+  · exact h
+  rename_i vol hv
+  split
+  · exact h
+  rename_i hforce
+  split
+  · exact h
+  split
+  · exact h
+  have c := hm.core
+  have hvm := (findVol_some hv).1
+  have hpv : ∀ p ∈ s.pending, p.v ≠ v := by
+    cases force with
+    | true => exact hs rfl
+    | false =>
+      intro p hp e
+      obtain ⟨sl, h1, h2⟩ := hm.pend p hp
+      obtain ⟨pv, hpv, hsl⟩ := slotAt_split h1
+      rw [e, hv] at hpv; cases hpv
+      have : 0 < occ vol.slots := by
+        simp only [occ]; rw [List.countP_pos_iff]; exact ⟨sl, List.mem_of_getElem? hsl, by simp [isOcc, h2]⟩
+      simp at hforce; omega
+  let g : Volume → Volume := fun x => { x with slots := (splitIdx gone vol.slots 0).1, total := x.total - (splitIdx gone vol.slots 0).2.length
+                                               used := if f.removeUpdatesUsed then x.used - occ (splitIdx gone vol.slots 0).2 else x.used }
+  have hgid : ∀ x, (g x).id = x.id := fun _ => rfl
+  -- a slot of the new table is a slot of the old one (in `v` possibly at another position)
+  have hslot : ∀ v' i sl', slotAt (updVol v g s.vols) v' i = some sl' →
+      (v' ≠ v ∧ slotAt s.vols v' i = some sl') ∨ (v' = v ∧ ∃ i0, slotAt s.vols v i0 = some sl') := by
+    intro v' i sl' h1
+    rw [slotAt_updVol _ _ _ _ hgid] at h1
+    by_cases e : v' = v
+    · right
+      simp only [e, if_true, hv, g] at h1
+      have hmem := splitIdx_mem gone vol.slots 0 sl' (List.mem_of_getElem? h1)
+      obtain ⟨i0, hi0⟩ := List.getElem?_of_mem hmem
+      exact ⟨e, i0, by simp [slotAt, hv, hi0]⟩
+    · left; simp only [e, if_false] at h1; exact ⟨e, h1⟩
+  have nopendV : ∀ i r, ¬ pendingAt s v i r := by
+    intro i r ⟨p, hp, e, _⟩; exact hpv p hp e
+  have hcntle : ∀ r, cnt (updVol v g s.vols) r ≤ cnt s.vols r := by
+    intro r
+    simp only [cnt, updVol, sumBy_map]
+    apply sumBy_le_sumBy
+    intro x hx
+    split
+    · rename_i hid
+      have e := eq_of_findVol c.ids hv hx hid
+      rw [e]
+      have := splitIdx_countP (holds r) gone vol.slots 0
+      simp only [g]; omega
+    · exact Nat.le_refl _
+  have hcnt : ∀ r, cnt s.vols r = cnt (updVol v g s.vols) r + (splitIdx gone vol.slots 0).2.countP (holds r) := by
+    intro r
+    have h1 := sumBy_updVol (fun x => x.slots.countP (holds r)) v g s.vols c.ids vol hv
+    have h2 := splitIdx_countP (holds r) gone vol.slots 0
+    simp only [cnt, g] at h1 ⊢
+    omega
+  have hkeep : ∀ r, located s.vols r = true → located (updVol v g s.vols) r = true ∨ r ∈ occList (splitIdx gone vol.slots 0).2 := by
+    intro r hr
+    have h1 := (located_true_iff _ _).mp hr
+    have h2 := hcnt r
+    by_cases hz : (splitIdx gone vol.slots 0).2.countP (holds r) = 0
+    · left; exact (located_true_iff _ _).mpr (by omega)
+    · right
+      have : 0 < (splitIdx gone vol.slots 0).2.countP (holds r) := by omega
+      obtain ⟨sl, hsl, hh⟩ := List.countP_pos_iff.mp this
+      simp only [occList, List.mem_filterMap]
+      exact ⟨sl, hsl, by simpa [holds] using hh⟩
+  refine ⟨?_, ?_, ?_, ?_, ?_, h.cacheGood, ?_, ?_, h.pendW⟩
+  · intro v' i sl' r h1 h2
+    rcases hslot v' i sl' h1 with ⟨_, h3⟩ | ⟨e, i0, h3⟩
+    · exact h.slotData v' i sl' r h3 h2
+    · rcases h.slotData v i0 sl' r h3 h2 with h4 | h4
+      · exact absurd h4 (nopendV i0 r)
+      · exact Or.inr h4
+  · intro v' i sl' r h1 h2 hd
+    rcases hslot v' i sl' h1 with ⟨_, h3⟩ | ⟨e, i0, h3⟩
+    · exact h.slotDur v' i sl' r h3 h2 hd
+    · rcases h.slotDur v i0 sl' r h3 h2 hd with h4 | h4
+      · exact Or.inl h4
+      · exact absurd h4 (nopendV i0 r)
+  · intro r hr
+    rcases h.refSafe r hr with h1 | ⟨h1, h2, h3⟩
+    · exact Or.inl (List.mem_append_right _ h1)
+    · rcases hkeep r h1 with h4 | h4
+      · exact Or.inr ⟨h4, h2, h3⟩
+      · exact Or.inl (List.mem_append_left _ h4)
+  · intro r hr
+    have hr' := List.mem_filter.mp hr
+    obtain ⟨h1, h3⟩ := h.freshSafe r hr'.1
+    rcases hkeep r h1 with h4 | h4
+    · exact ⟨h4, h3⟩
+    · have hc2 : (occList (splitIdx gone vol.slots 0).2).contains r = true := by simpa using h4
+      have := hr'.2
+      simp [hc2] at this
+      exact absurd h4 this
+  · intro r hr
+    exact h.freshRec r (List.mem_filter.mp hr).1
+  · intro r hr
+    exact h.locStored r (located_mono_of_cnt (hcntle r) hr)
+  · intro v' i sl' h1 hd
+    rcases hslot v' i sl' h1 with ⟨_, h3⟩ | ⟨e, i0, h3⟩
+    · exact h.dirtyChanged v' i sl' h3 hd
+    · rw [e]; exact h.dirtyChanged v i0 sl' h3 hd
+
+theorem expire1Part_data (f : Facts) {s : State} (h : DataInv s) (ht : Nat) (keep : List (Nat × List SectorId)) :
+    DataInv (expire1Part f s ht keep).1 := by
+  simp only [expire1Part]
+  split
+  · exact h
+  rename_i hvalid
+  split
+  · exact h
+  have hv' : ∀ c ∈ s.c1, ∀ a ∈ keptRoots keep c.id c.roots, a ∈ c.roots := by
+    have := hvalid
+    simp at this
+    exact fun c hc => (this c hc).2.1
+  refine dataInv_refs_shrink h rfl rfl rfl rfl rfl rfl rfl rfl rfl rfl (refs_of_c1_shrink ?_ rfl rfl)
+  intro r hr
+  simp only [refd1, List.any_eq_true, List.mem_map] at hr ⊢
+  obtain ⟨x, ⟨y, hy, rfl⟩, hx⟩ := hr
+  exact ⟨y, hy, by simpa using hv' y hy r (by simpa using hx)⟩
+
+theorem expire2Part_data (f : Facts) {s : State} (h : DataInv s) (ht : Nat) (keep : List (Nat × List SectorId)) :
+    DataInv (expire2Part f s ht keep).1 := by
+  simp only [expire2Part]
+  split
+  · exact h
+  rename_i hvalid
+  split
+  · exact h
+  have hv' : ∀ c ∈ s.c2, ∀ a ∈ keptRoots keep c.id c.roots, a ∈ c.roots := by
+    have := hvalid
+    simp at this
+    exact fun c hc => (this c hc).2.1
+  refine dataInv_refs_shrink h rfl rfl rfl rfl rfl rfl rfl rfl rfl rfl (refs_of_c2_shrink rfl ?_ rfl)
+  intro r hr
+  simp only [refd2, List.any_eq_true, List.mem_map] at hr ⊢
+  obtain ⟨x, ⟨y, hy, rfl⟩, hx⟩ := hr
+  exact ⟨y, hy, by simpa using hv' y hy r (by simpa using hx)⟩
+
+theorem expireTempPart_data {s : State} (h : DataInv s) (ht : Nat) (keep : List Temp) : DataInv (expireTempPart s ht keep).1 := by
+  simp only [expireTempPart]
+  split
+  · exact h
+  rename_i hvalid
+  split
+  · exact h
+  have hk : ∀ t ∈ keep, t ∈ s.temps := by
+    have := hvalid
+    simp at this
+    exact this.1.2
+  refine dataInv_refs_shrink h rfl rfl rfl rfl rfl rfl rfl rfl rfl rfl ?_
+  intro r hr
+  simp only [referenced, refd1, refd2, refdT, Bool.or_eq_true, List.any_eq_true] at hr ⊢
+  rcases hr with hr | ⟨t, ht', e⟩
+  · exact Or.inl hr
+  · exact Or.inr ⟨t, hk t ht', e⟩
+
+/-- one slot of a prunable sector released -/
+theorem pruneOne_data {s : State} (hm : MetaOK s) (h : DataInv s) {v i : Nat} {r : SectorId} (hh : holdsAt s.vols v i r)
+    (hp : prunable s r = true) :
+    DataInv { s with vols := clearAt s.vols v i, m := { s.m with physical := s.m.physical - 1 } } := by
+  have hnr : referenced s r = false ∧ r ∉ s.recent := by simpa [prunable] using hp
+  have hloc' := located_clear hm.core hh
+  apply dataInv_slots h
+  · intro v' i' sl' h1
+    rw [clearAt_eq] at h1
+    rcases slot_cases_modVol h1 with ⟨rfl, rfl, sl, h3, rfl⟩ | ⟨_, h3⟩
+    · exact Or.inr ⟨sl, h3, Or.inl rfl, fun x => x⟩
+    · exact same_slot h3
+  · intro r' hr'; exact ((hloc' r').mp hr').2
+  · intro r' hr'
+    by_cases e : r' = r
+    · -- unreferenced and not fresh: nobody relies on it
+      right; right
+      subst e
+      exact ⟨hnr.1, fun hf => hnr.2 (h.freshRec _ hf)⟩
+    · left; exact (hloc' r').mpr ⟨e, hr'⟩
+  · rfl
+  · rfl
+  · intro _ hx; exact hx
+  · intro x; rfl
+  · intro _ hx; exact hx
+  · intro _ hx; exact hx
+  · exact h.cacheGood
+  · intro _ hx; exact hx
+  · intro _ hx; exact hx
+
+
+theorem prunePart_data (cleared : List (Nat × Nat)) : ∀ {s : State}, MetaOK s → DataInv s → DataInv (prunePart s cleared).1 := by
+  induction cleared with
+  | nil => intro s _ h; exact h
+  | cons x xs ih =>
+    intro s hm h
+    obtain ⟨v, i⟩ := x
+    simp only [prunePart]
+    split
+    · rename_i sl vol hsl hvol
+      split
+      · rename_i r hr
+        split
+        · exact h
+        rename_i hp
+        split
+        · exact h
+        split
+        · exact h
+        have hpr : prunable s r = true := by simpa using hp
+        exact ih (pruneOne_ok hm ⟨sl, hsl, hr⟩ hpr) (pruneOne_data hm h ⟨sl, hsl, hr⟩ hpr)
+      · exact h
+    · exact h
+
+theorem migratePart_data {s : State} (hm : MetaOK s) (h : DataInv s) (v start : Nat) (moves : List Move)
+    (hs : ∀ p ∈ s.pending, p.v ≠ v) : DataInv (migratePart s v start moves).1 := by
+  have := migrate_data hm h v start moves hs
+  simp only [migratePart]
+  split
+  · rename_i s' heq; rw [heq] at this; exact this
+  · exact this
+
+theorem shape8_of_shape {f : Facts} {op : Op} (h : ShapeOK f op) : C08.ShapeOK f op := by
+  cases op <;> first | exact h | trivial
+
 /-! ## the partial theorem -/
 
 theorem step_inv (f : Facts) {s : State} (h : Inv s) (op : Op) (hs : Safe s op) (hsh : ShapeOK f op) : Inv (step f s op).1 := by
   obtain ⟨hm, hd⟩ := h
   obtain ⟨hs8, hs2⟩ := hs
-  refine ⟨step_ok f hm op hs8, ?_⟩
+  refine ⟨step_ok f hm op hs8 (shape8_of_shape hsh), ?_⟩
   cases op with
   | addVolume id ro => exact addVolume_data hd id ro
   | grow v n => exact grow_data hm hd v n
@@ -2034,6 +2268,12 @@ theorem step_inv (f : Facts) {s : State} (h : Inv s) (op : Op) (hs : Safe s op) 
   | syncEnd => exact syncEnd_data hd
   | syncFsyncFail v => exact syncFsyncFail_data hsh hd v
   | syncPartial oks fail => exact syncPartial_data hsh hd oks fail
+  | removeRows v force gone => exact removeRows_data f hm hd v force gone hs8
+  | expire1Part ht keep => exact expire1Part_data f hd ht keep
+  | expire2Part ht keep => exact expire2Part_data f hd ht keep
+  | expireTempPart ht keep => exact expireTempPart_data hd ht keep
+  | prunePart cleared => exact prunePart_data cleared hm hd
+  | migratePart v start moves => exact migratePart_data hm hd v start moves hs8
   | vmResizeStale cur v n moves =>
     show DataInv (vmResizeStale f s cur v n moves).1
     rw [vmResizeStale_fixed hsh]
